@@ -27,7 +27,7 @@ CHECKS = {
         'technique': 'Coq proof of canonicity (sorted-NoDup uniqueness, sort permutation) + model/impl correspondence of scanner, importer and exporter + property monitors',
     },
     'C02': {
-        'text': 'Theorems in coq/props/C02.v, by induction over the rows of the importer model with an invariant on the '
+        'text': 'Theorems in coq/props/C02.v include, for EVERY text that imports through either reader (any spines, splits, joins, comments, malformed cells): stage k+1 is the k-th non-blank line, its nodes are that line\'s cells in order, and every node holds exactly the token of its source cell under the header of its own spine (C02_tree_holds_the_source_grid). Also: Theorems in coq/props/C02.v, by induction over the rows of the importer model with an invariant on the '
                 'stage table: for EVERY text that imports, the tree has one stage per non-empty line and one node per '
                 'tab-separated cell (one node for a global-comment line); every imported document is a tree (ids = creation '
                 'order, a parent precedes its children, each node is listed in the children of exactly its parent); every node '
